@@ -341,10 +341,13 @@ impl Configuration {
         config: Rc<RefCell<Self>>,
         values: Arc<dyn MapView<Value = ConfiguredValue>>,
     ) -> Self {
+        // a view of an explicit (`with (...)`) configuration is still explicit
+        let span = (*config).borrow().span;
+
         Self {
             values,
             original_config: Some(config),
-            span: None,
+            span,
         }
     }
 
